@@ -124,7 +124,7 @@ def _run_prefix(ctx, muts, segsites):
         obj.mutation_phase = npx.ones(nm)
         obj.mutation_edges = np.array([e for b, e in muts] + [4], dtype=np.int32)
         obj.mutation_nodes = obj.mutation_edges.copy()
-        obj.block_edges = np.array([[0, 1], [2, 3]], dtype=np.int32)
+        obj.block_edges = np.array(c23.BLOCK_EDGES.get("", [[0, 1], [2, 3]]), dtype=np.int32)
         obj.block_nodes = np.array([[6, 6], [7, 8]], dtype=np.int32)
         obj.block_likelihoods = npx.zeros((2, 2))
         obj.edge_children = np.arange(6, dtype=np.int32)
@@ -172,10 +172,10 @@ def cases(tier):
     cs = []
     for sk, swap in (("diploid_cherry", [0]), ("diploid_cherry", [0, 1, 2]),
                      ("diploid_two_tree", [0]), ("diploid_two_tree", [1, 2]),
-                     ("diploid_missing", [0])):
+                     ("diploid_missing", [0]), ("diploid_three_tree", [0, 3])):
         cs.append(Case(f"blocks:{sk}:swap{''.join(map(str, swap))}", h_blocks_rephase,
                        dict(skel=sk, swap=swap)))
-    for lay in c23.LAYOUTS:
+    for lay in ("one_per_block", "two_in_block", "three_mixed"):
         for seg in (False, True):
             cs.append(Case(f"rescale:{lay}:seg{int(seg)}", h_rescale_rephase,
                            dict(layout=lay, segsites=seg)))
@@ -200,7 +200,7 @@ def run(tier, seed, t0):
         "proved here.)",
         functions=["tsdate.phasing._block_singletons", "tsdate.phasing.reallocate_unphased",
                    "tsdate.variational.ExpectationPropagation.infer / rescale (prefix)"],
-        bounds={"skeletons": "diploid_cherry, diploid_two_tree, diploid_missing (<= 3 trees, 1-2 "
+        bounds={"skeletons": "diploid_cherry, diploid_two_tree, diploid_three_tree, diploid_missing (<= 3 trees, 1-2 "
                 "individuals, <= 4 singletons)", "layouts": list(c23.LAYOUTS),
                 "coordinates/phases": "symbolic"},
         stubs=["iterate / propagate_mutations replaced on the instance; rescale cut after "
@@ -217,7 +217,7 @@ def replay(payload):
     """Public API: date(singletons_phased=False) on an input and on a re-phased copy."""
     import tsdate
     bad = []
-    for name in ("diploid_cherry", "diploid_two_tree"):
+    for name in ("diploid_cherry", "diploid_two_tree", "diploid_three_tree"):
         A = SK.all_named()[name]()
         for swap in ([0], [0, 1]):
             B = _swap_phase(A, swap)
